@@ -261,7 +261,7 @@ pub fn round_trips(args: &Args, rng: &mut Rng, tr: &mut Shards) -> (usize, usize
         ("bzip2", Some(CompressionCodec::Bzip2)),
         ("xz", Some(CompressionCodec::Xz)),
     ];
-    for _ in 0..args.scale(800, 14000) {
+    for _ in 0..args.scale(800, 28000) {
         let Some(case) = gen_case(rng) else { continue };
         let framing = *rng.pick(&["ocf", "ocf", "ocf", "soe", "soe", "confluent", "apicurio", "binary"]);
         let bs = *rng.pick(&[1usize, 2, 1024]);
